@@ -108,6 +108,6 @@ package miner
 //@   prop C31
 //@   requires mc != nil && b != nil && b.Round >= 0
 //@   opaque Validate, GetCurrentRound, GetMinerRound, getOrCreateRound, AddToRoundVerification, IsVerificationComplete, IsVRFComplete, GetTimeoutCount, GetRoundRandomSeed, GetRandomSeed, AddRoundBlock, checkBlockNotarization, AddNotarizedBlockToRound, updatePreviousBlockNotarization, IsBlockNotarized, MergeVerificationTickets
-//@   at-call verifyAttachedTickets assert[this-blocks-hash-round-and-tickets] $arg2 == b.Hash && $arg3 == b.Round && len(attached) == len(b.VerificationTickets)
-//@   at-call MergeVerificationTickets assert[attached-tickets-verified] $arg1 == b && len(attached) == len(b.VerificationTickets) && (forall i in 0..len(attached) :: tk_valid(attached[i].VerifierID, attached[i].Signature, b.Hash, b.Round))
+//@   at-call verifyAttachedTickets assert[this-blocks-hash-round-and-tickets] $arg2 == b.Hash && $arg3 == b.Round && $arg4 == attached
+//@   at-call MergeVerificationTickets assert[attached-tickets-verified] $arg1 == b && (forall i in 0..len(attached) :: tk_valid(attached[i].VerifierID, attached[i].Signature, b.Hash, b.Round))
 //@   at-call MergeVerificationTickets assert[attached-tickets-from-distinct-verifiers] forall i in 0..len(attached) :: (forall j in i+1..len(attached) :: attached[i].VerifierID != attached[j].VerifierID)
